@@ -36,6 +36,28 @@ func ipOf(b []byte) netip.Addr {
 
 func hx(b []byte) string { return core.Hex(b) }
 
+// rfc1071 returns the ones-complement of the ones-complement sum of b (0 for data that carries a valid checksum).
+func rfc1071(b []byte) uint16 {
+	var sum uint32
+	for i := 0; i+1 < len(b); i += 2 {
+		sum += uint32(b[i])<<8 | uint32(b[i+1])
+	}
+	if len(b)%2 == 1 {
+		sum += uint32(b[len(b)-1]) << 8
+	}
+	for sum>>16 != 0 {
+		sum = sum&0xffff + sum>>16
+	}
+	return ^uint16(sum)
+}
+
+func short(s string) string {
+	if len(s) > 60 {
+		return s[:60] + "…"
+	}
+	return s
+}
+
 func errStr(err error) string {
 	if errors.Is(err, packet.ErrPayloadTooBig) {
 		return "err ErrPayloadTooBig"
@@ -195,6 +217,9 @@ func EvalAll(c *core.Ctx, line string) []*core.Case {
 					if len(sip) == 4 && (ip.Src() != ipOf(sip) || ip.Dst() != ipOf(dip)) {
 						return "library IP4 view does not read back the encoded addresses"
 					}
+					if rfc1071(frame[14:34]) != 0 {
+						return fmt.Sprintf("IPv4 header checksum of the composed frame does not verify (header %x)", frame[14:34])
+					}
 				} else {
 					ip := fr.IP6()
 					if ip == nil || int(ip.PayloadLen()) != 8+len(pl) || int(ip.NextHeader()) != 17 || int(ip.HopLimit()) != ttl {
@@ -251,6 +276,18 @@ func EvalAll(c *core.Ctx, line string) []*core.Case {
 				e := packet.ICMPEcho(frame[off:])
 				if e.IsValid() != nil || int(e.EchoID()) != id || int(e.EchoSeq()) != seq || !bytes.Equal(e.EchoData(), data) && len(data) > 0 {
 					return "library ICMPEcho view does not read back id/seq/data"
+				}
+				if kind == "icmp4" {
+					// the header IP4.AppendPayload completed: lengths, protocol and a header checksum that
+					// verifies (RFC 791: the ones-complement sum over the header, checksum field included, is 0xffff)
+					ip := frame[14:34]
+					if int(ip[2])<<8|int(ip[3]) != 28+len(data) || ip[9] != 1 || int(ip[8]) != ttl {
+						return "IPv4 header of the composed frame does not carry the total length / protocol / TTL supplied"
+					}
+					if rfc1071(ip) != 0 {
+						return fmt.Sprintf("IPv4 header checksum of the composed frame does not verify (header %x)", ip)
+					}
+					// (EncodeICMPEcho leaves the ICMP checksum to the send path – icmp4SendPacket fills it in; C07/C15)
 				}
 				return ""
 			}
@@ -314,6 +351,14 @@ func EvalAll(c *core.Ctx, line string) []*core.Case {
 				}
 				if strings.HasPrefix(impl, "ok ") && viewOracle != nil {
 					return viewOracle(), ""
+				}
+				return "", ""
+			},
+			// the capacity clause: where the model (udp4_too_big, … : theorems) rejects with ErrPayloadTooBig the
+			// implementation must do the same, not panic or write on
+			OracleR: func(reply string) (string, string) {
+				if reply == "err ErrPayloadTooBig" && impl != reply {
+					return fmt.Sprintf("a payload exceeding the remaining capacity (%d bytes needed, buffer holds %d) must be rejected with ErrPayloadTooBig; the encoders returned %s", need, capacity, short(impl)), ""
 				}
 				return "", ""
 			}}}
